@@ -288,6 +288,11 @@ def translate():
         i, j = body.find("validate_sozu_id_header("), body.find(".entry(address)")
         if i < 0 or j < 0 or i > j or not re.search(r"if\s+let\s+Some\(ref\s+\w+\)\s*=\s*listener\.sozu_id_header", body):
             fails.append("T-steps: add_%s_listener no longer validates listener.sozu_id_header before the map entry (model: add_listener)" % kind)
+    for kind in ("tcp", "udp"):
+        body = strip_comments(fn_body(src, "add_%s_frontend" % kind))
+        i, j = body.find("cluster_id != &front.cluster_id"), body.find(".or_default()")
+        if i < 0 or j < 0 or i > j:
+            fails.append("T-steps: add_%s_frontend no longer refuses an address bound to another cluster before creating the bucket (model: addr_elsewhere)" % kind)
     for fn, want in MODEL_CERT_EVENTS.items():
         got = [n for n, k in summary["events_" + fn]]
         if got != want:
